@@ -1080,14 +1080,16 @@ class Fault(object):
         if not version:
             version = self.config.version
 
-        if rpcid is not None and rpcid != "":
-            # 0 is a valid request ID
-            self.rpcid = rpcid
+        if rpcid is None or rpcid == "":
+            # No forced ID (0 is a valid one): use the one of the fault.
+            # The forced ID is not stored: the same Fault object can be used
+            # to answer other requests
+            rpcid = self.rpcid
 
         return dumps(
             self,
             methodresponse=True,
-            rpcid=self.rpcid,
+            rpcid=rpcid,
             version=version,
             config=self.config,
         )
@@ -1103,14 +1105,14 @@ class Fault(object):
         if not version:
             version = self.config.version
 
-        if rpcid is not None and rpcid != "":
-            # 0 is a valid request ID
-            self.rpcid = rpcid
+        if rpcid is None or rpcid == "":
+            # No forced ID (0 is a valid one): use the one of the fault
+            rpcid = self.rpcid
 
         return dump(
             self,
             is_response=True,
-            rpcid=self.rpcid,
+            rpcid=rpcid,
             version=version,
             config=self.config,
         )
